@@ -618,7 +618,12 @@ class QuoteEval:
             if op.get("fn"):
                 return ("fn", op["fn"])
             if op.get("path"):
-                return ("const", op["path"], json.dumps(op.get("val"), sort_keys=True))
+                v = op.get("val")
+                # a named constant whose evaluated value is a field-less variant (`const NO_LIMIT: Option<usize> = None`)
+                # is that variant
+                if isinstance(v, dict) and v.get("variant") and v.get("adt") and v.get("fields") == []:
+                    return ("agg", v["adt"], v["variant"], ())
+                return ("const", op["path"], json.dumps(v, sort_keys=True))
             if op.get("val") is None and isinstance(op.get("tyconst"), str) and op["tyconst"].startswith('"'):
                 try:  # pattern constant of a `match` on a string
                     return ("lit", json.dumps({"str": json.loads(op["tyconst"])}, sort_keys=True))
